@@ -216,7 +216,21 @@ def execute(program, ch: Chooser) -> Result:  # noqa: C901, PLR0912, PLR0915
     except Exception as exc:  # noqa: BLE001
         viols.append(viol("declaration", ak.unwrap(t)[0], "class can be declared", f"{type(exc).__name__}: {exc}"[:160], term=t))
         return Result("decl-fails", True, viols, {"term": t}, steps=1)
+    ak.VALUE_FAILURES.clear()
     conforming, cases = _cases(t)
+    if ak.VALUE_FAILURES and all(ak.conforms(v, t[1] if t[0] == "box" else t) == ak.Y for v in ak.values(t[1])[:2] if t[0] == "box"):
+        # building Box[X](item=<conforming X value>) failed although X's own program accepts it:
+        # the specialisation itself is wrong (e.g. mixed up with another specialisation)
+        inner_ok = True
+        try:
+            inner_cls = make_class({"a": ak.annotation(t[1])}) if t[0] == "box" else None
+            if inner_cls is not None:
+                for v in ak.values(t[1])[:2]:
+                    inner_cls(a=v)
+        except Exception:  # noqa: BLE001
+            inner_ok = False  # the inner annotation refuses it too: reported by the inner term
+        if inner_ok:
+            viols.append(viol("accepts-conforming", "generic-specialisation/box", "Box[X](item=conforming X) succeeds", ak.VALUE_FAILURES[:2], term=t))
     for v in cases:
         steps += 1
         ok = _check_value(cls, "a", v, t, "arg", viols, stats, lambda v: cls(a=v))
